@@ -28,7 +28,8 @@ pub struct IncomingChannel(pub u16);
 pub struct OutgoingChannel(pub u16);
 
 /// Open: only idle-time-out is read by the engine; everything else is one opaque field (R11)
-pub struct Open { pub idle_time_out: Option<Milliseconds>, pub rest: OpenRest }
+pub struct MaxFrameSize(pub u32);
+pub struct Open { pub idle_time_out: Option<Milliseconds>, pub max_frame_size: MaxFrameSize, pub rest: OpenRest }
 
 //@@ type file=fe2o3-amqp-types/src/states.rs kind=enum name=ConnectionState clone
 //@@ end
@@ -63,6 +64,13 @@ pub uninterp spec fn state_err_to_inner(e: ConnectionStateError) -> ConnectionIn
 #[verifier::external_body]
 pub fn state_err_into(e: ConnectionStateError) -> (r: ConnectionInnerError) ensures r == state_err_to_inner(e) { unimplemented!() }
 
+
+pub trait ErrInto<T>: Sized { spec fn conv(self) -> T; fn err_into(self) -> (r: T) ensures r == self.conv(); }
+impl ErrInto<ConnectionInnerError> for ConnectionInnerError { open spec fn conv(self) -> ConnectionInnerError { self } fn err_into(self) -> (r: ConnectionInnerError) { let e = self; assert(e == <ConnectionInnerError as ErrInto<ConnectionInnerError>>::conv(self)); e } }
+pub uninterp spec fn transport_err_to_inner(e: TransportError) -> ConnectionInnerError;
+impl ErrInto<ConnectionInnerError> for TransportError { open spec fn conv(self) -> ConnectionInnerError { transport_err_to_inner(self) } #[verifier::external_body] fn err_into(self) -> (r: ConnectionInnerError) { unimplemented!() } }
+impl ErrInto<ConnectionInnerError> for ConnectionStateError { open spec fn conv(self) -> ConnectionInnerError { state_err_to_inner(self) } fn err_into(self) -> (r: ConnectionInnerError) { state_err_into(self) } }
+
 impl Frame {
     pub fn new(channel: u16, body: FrameBody) -> (r: Self) ensures r.channel == channel, r.body == body { Frame { channel, body } }
     pub fn empty() -> (r: Self) ensures r == (Frame { channel: 0, body: FrameBody::Empty }) { Frame { channel: 0, body: FrameBody::Empty } }
@@ -88,13 +96,99 @@ impl HeartBeat {
     }
 }
 
-pub struct TransportS { pub sent: Ghost<Seq<Frame>>, pub failures: Ghost<nat> }
+pub struct TransportS { pub sent: Ghost<Seq<Frame>>, pub failures: Ghost<nat>, pub enc_max: Ghost<int>, pub dec_max: Ghost<int>, pub recv: Ghost<Seq<Frame>> }
 impl TransportS {
     #[verifier::external_body]
     pub fn send(&mut self, f: Frame) -> (r: Result<(), TransportError>)
         ensures
             r is Ok ==> final(self).sent@ == old(self).sent@.push(f) && final(self).failures@ == old(self).failures@,
             r is Err ==> final(self).sent@ == old(self).sent@ && final(self).failures@ == old(self).failures@ + 1,
+    { unimplemented!() }
+}
+impl TransportS {
+    /// Stream::next on the transport: the peer is unconstrained (any frame, a decoding error, end of stream); reading writes nothing
+    #[verifier::external_body]
+    pub fn next(&mut self) -> (r: Option<Result<Frame, TransportError>>)
+        ensures final(self).sent@ == old(self).sent@ && final(self).failures@ == old(self).failures@ && final(self).enc_max == old(self).enc_max && final(self).dec_max == old(self).dec_max,
+            (match r { Some(Ok(f)) => final(self).recv@ == old(self).recv@.push(f), _ => final(self).recv@ == old(self).recv@ }),
+    { unimplemented!() }
+    #[verifier::external_body]
+    pub fn encoder_max_frame_size(&self) -> (r: usize) { unimplemented!() }
+}
+/// ConnectionControl (control.rs) with channel ends as stand-ins
+pub enum ConnectionControl {
+    Close(Option<AmqpError>),
+    AllocateSession { tx: SessTxOwned, responder: AllocResponder },
+    DeallocateSession(OutgoingChannel),
+    GetMaxFrameSize(SizeResponder),
+}
+opaque!(SessTxOwned, AllocSessionError, ConnAllocError, ConnectionStopReason);
+pub struct AllocResponder { pub g: Ghost<int> }
+impl AllocResponder {
+    #[verifier::external_body]
+    pub fn send(self, r: Result<OutgoingChannel, AllocSessionError>) -> (o: Result<(), Result<OutgoingChannel, AllocSessionError>>) { unimplemented!() }
+}
+pub struct SizeResponder { pub g: Ghost<int> }
+impl SizeResponder {
+    #[verifier::external_body]
+    pub fn send(self, r: usize) -> (o: Result<(), usize>) { unimplemented!() }
+}
+#[verifier::external_body]
+pub fn alloc_err_into(e: ConnAllocError) -> (r: AllocSessionError) { unimplemented!() }
+#[verifier::external_body]
+pub fn stop_reason_closed_with_error(e: AmqpError) -> (r: ConnectionStopReason) { unimplemented!() }
+#[verifier::external_body]
+pub fn eof_transport_error() -> (r: TransportError) { unimplemented!() }
+impl ConnS {
+    #[verifier::external_body]
+    pub fn set_connection_stop_reason(&mut self, reason: ConnectionStopReason) ensures final(self).st == old(self).st { unimplemented!() }
+    #[verifier::external_body]
+    pub fn allocate_session(&mut self, tx: SessTxOwned) -> (r: Result<OutgoingChannel, ConnAllocError>) ensures final(self).st == old(self).st { unimplemented!() }
+    #[verifier::external_body]
+    pub fn deallocate_session(&mut self, ch: OutgoingChannel) ensures final(self).st == old(self).st { unimplemented!() }
+}
+
+/// OpenError with the variants open_inner produces (R11)
+pub enum OpenError { Io(IoErr), IllegalState, RemoteClosed, RemoteClosedWithError(AmqpError), TransportError(TransportError), Other }
+opaque!(IoErr);
+#[verifier::external_body]
+pub fn eof_io_error() -> (r: IoErr) { unimplemented!() }
+impl ErrInto<OpenError> for OpenError { open spec fn conv(self) -> OpenError { self } fn err_into(self) -> (r: OpenError) { let e = self; assert(e == <OpenError as ErrInto<OpenError>>::conv(self)); e } }
+impl ErrInto<OpenError> for TransportError { open spec fn conv(self) -> OpenError { OpenError::TransportError(self) } fn err_into(self) -> (r: OpenError) { OpenError::TransportError(self) } }
+impl ErrInto<OpenError> for ConnectionStateError {
+    open spec fn conv(self) -> OpenError { match self { ConnectionStateError::IllegalState => OpenError::IllegalState, ConnectionStateError::RemoteClosed => OpenError::RemoteClosed,
+        ConnectionStateError::RemoteClosedWithError(v) => OpenError::RemoteClosedWithError(v), ConnectionStateError::TransportError(v) => OpenError::TransportError(v) } }
+    fn err_into(self) -> (r: OpenError) { match self { ConnectionStateError::IllegalState => OpenError::IllegalState, ConnectionStateError::RemoteClosed => OpenError::RemoteClosed,
+        ConnectionStateError::RemoteClosedWithError(v) => OpenError::RemoteClosedWithError(v), ConnectionStateError::TransportError(v) => OpenError::TransportError(v) } }
+}
+impl TransportS {
+    /// set_encoder_max_frame_size / set_decoder_max_frame_size: recorded (the real ones clamp to MIN-MAX-FRAME-SIZE, unit TRANSPORT's precondition)
+    #[verifier::external_body]
+    pub fn set_encoder_max_frame_size(&mut self, n: usize) -> (r: &mut TransportS)
+        ensures *r == (TransportS { enc_max: Ghost(n as int), ..*old(self) }), *final(self) == *final(r),
+    { unimplemented!() }
+    #[verifier::external_body]
+    pub fn set_decoder_max_frame_size(&mut self, n: usize) -> (r: &mut TransportS)
+        ensures *r == (TransportS { dec_max: Ghost(n as int), ..*old(self) }), *final(self) == *final(r),
+    { unimplemented!() }
+}
+impl ConnS {
+    #[verifier::external_body]
+    pub fn local_open(&self) -> (r: &Open) ensures *r == self.local_open { unimplemented!() }
+    /// [C12.open-frame] / [C12.open-sent] of unit CONN
+    #[verifier::external_body]
+    pub fn send_open(&mut self, writer: &mut TransportS) -> (r: Result<(), ConnectionStateError>)
+        ensures
+            final(self).local_open == old(self).local_open,
+            r is Ok ==> final(writer).sent@ == old(writer).sent@.push(Frame { channel: 0, body: FrameBody::Open(old(self).local_open) }) && final(writer).failures@ == old(writer).failures@,
+            r is Ok ==> (match old(self).st {
+                ConnectionState::HeaderExchange => final(self).st == ConnectionState::OpenSent,
+                ConnectionState::OpenReceived => final(self).st == ConnectionState::Opened,
+                ConnectionState::HeaderSent => final(self).st == ConnectionState::OpenPipe,
+                _ => false,
+            }),
+            final(writer).enc_max == old(writer).enc_max && final(writer).dec_max == old(writer).dec_max && final(writer).recv == old(writer).recv,
+            final(writer).sent@ == old(writer).sent@ || final(writer).sent@ == old(writer).sent@.push(Frame { channel: 0, body: FrameBody::Open(old(self).local_open) }),
     { unimplemented!() }
 }
 pub struct ChanReceiver<T> { pub queue: Ghost<Seq<T>>, pub closed: Ghost<bool> }
@@ -122,13 +216,13 @@ impl SessTx {
 pub open spec fn close_frame(error: Option<AmqpError>) -> Frame { Frame { channel: 0, body: FrameBody::Close(Close { error }) } }
 
 /// the connection endpoint as the engine sees it
-pub struct ConnS { pub st: ConnectionState, pub g: Ghost<int> }
+pub struct ConnS { pub st: ConnectionState, pub local_open: Open, pub g: Ghost<int> }
 impl ConnS {
     pub fn local_state(&self) -> (r: &ConnectionState) ensures *r == self.st { &self.st }
     /// [C12.open-received] / [C17.channel-max.agreed] of unit CONN
     #[verifier::external_body]
     pub fn on_incoming_open(&mut self, channel: IncomingChannel, open: Open) -> (r: Result<(), ConnectionStateError>)
-        ensures match old(self).st {
+        ensures final(self).local_open == old(self).local_open, match old(self).st {
             ConnectionState::HeaderExchange => r is Ok && final(self).st == ConnectionState::OpenReceived,
             ConnectionState::OpenSent => r is Ok && final(self).st == ConnectionState::Opened,
             ConnectionState::ClosePipe => r is Ok && final(self).st == ConnectionState::CloseSent,
@@ -169,6 +263,9 @@ impl ConnS {
                 _ => false,
             }),
             r is Err ==> final(self).st == old(self).st,
+            // [C12.close-at-most-once] of unit CONN
+            !(old(self).st is Opened || old(self).st is CloseReceived || old(self).st is OpenSent || old(self).st is OpenPipe) ==> r is Err && final(writer).sent@ == old(writer).sent@,
+            r is Err ==> final(writer).sent@ == old(writer).sent@,
             final(writer).failures@ >= old(writer).failures@,
             final(writer).sent@.len() >= old(writer).sent@.len() && final(writer).sent@.take(old(writer).sent@.len() as int) =~= old(writer).sent@,
             // with the connection in CloseReceived the only way to fail is the transport
@@ -230,6 +327,8 @@ pub open spec fn lifted(b: SessionFrameBody) -> FrameBody {
 //@@ subst `Receiver<ConnectionControl>` => `ConnCtlRx` rule=R9
 //@@ subst `Receiver<SessionFrame>` => `ChanReceiver<SessionFrame>` rule=R9
 //@@ end
+
+pub open spec fn close_already_sent(st: ConnectionState) -> bool { st is CloseSent || st is Discarding || st is ClosePipe || st is OpenClosePipe || st is End }
 
 impl ConnectionEngine {
 //@@ fn file=fe2o3-amqp/src/connection/engine.rs impl=`~impl<Io,C>ConnectionEngine<Io,C>whereIo:AsyncRead+AsyncWrite+std::fmt::Debug+SendBound+Unpin+'static,C:endpoint::Connection<State=ConnectionState>` name=on_heartbeat
@@ -313,6 +412,83 @@ impl ConnectionEngine {
                     let s1 = self.transport.sent@;
                     if s1 == smid.push(close_frame(None)) { assert(s1.drop_last() =~= smid); }
                 }
+//@@ end
+
+//@@ fn file=fe2o3-amqp/src/connection/engine.rs impl=`~impl<Io,C>ConnectionEngine<Io,C>whereIo:AsyncRead+AsyncWrite+std::fmt::Debug+SendBound+Unpin+'static,C:endpoint::Connection<State=ConnectionState>` name=wait_for_remote_close
+//@@ attr #[verifier::exec_allows_no_decreases_clause]
+//@@ qmark
+//@@ subst `|| { transport::Error::Io(io::Error::new( io::ErrorKind::UnexpectedEof, "Expecting remote close", )) }` => `|| -> (o: TransportError) { eof_transport_error() }` rule=R18
+//@@ subst `IncomingChannel(frame.channel)` => `IncomingChannel(frame.channel)` rule=optional
+//@@ spec
+    ensures
+        discard_other ==> final(self).transport.sent@ == old(self).transport.sent@ && final(self).connection == old(self).connection
+            && final(self).outgoing_session_frames == old(self).outgoing_session_frames && final(self).heartbeat == old(self).heartbeat,   // [C12.discarding.wait-ignores] while waiting for the peer's close after an error close, everything else the peer sends is dropped unseen: nothing is written, no state moves
+//@@ loop 0
+        invariant
+            discard_other ==> self.transport.sent@ == old(self).transport.sent@ && self.connection == old(self).connection
+                && self.outgoing_session_frames == old(self).outgoing_session_frames && self.heartbeat == old(self).heartbeat,
+//@@ end
+
+//@@ fn file=fe2o3-amqp/src/connection/engine.rs impl=`~impl<Io,C>ConnectionEngine<Io,C>whereIo:AsyncRead+AsyncWrite+std::fmt::Debug+SendBound+Unpin+'static,C:endpoint::Connection<State=ConnectionState>` name=close_connection
+//@@ qmark
+//@@ spec
+    ensures
+        close_already_sent(old(self).connection.st) && (old(self).connection.st is Discarding || old(self).connection.st is End) ==> final(self).transport.sent@ == old(self).transport.sent@,   // [C12.close-at-most-once] closing the connection when a close has already gone out (after an error close: DISCARDING) writes nothing more
+        (old(self).connection.st is Start || old(self).connection.st is HeaderReceived || old(self).connection.st is HeaderSent || old(self).connection.st is HeaderExchange)
+            ==> r is Err && final(self).transport.sent@ == old(self).transport.sent@,                                                                                                      // [C12.no-close-before-open] no close before the open exchange has begun
+        old(self).connection.st is CloseReceived && r is Ok ==> final(self).transport.sent@ == old(self).transport.sent@.push(close_frame(error)) && final(self).connection.st is End,       // [C12.peer-close-answered] a close received from the peer is answered with exactly one close
+//@@ end
+
+//@@ fn file=fe2o3-amqp/src/connection/engine.rs impl=`~impl<Io,C>ConnectionEngine<Io,C>whereIo:AsyncRead+AsyncWrite+std::fmt::Debug+SendBound+Unpin+'static,C:endpoint::Connection<State=ConnectionState>` name=on_control
+//@@ attr #[verifier::loop_isolation(false)]
+//@@ qmark
+//@@ subst `ConnectionStopReason::ClosedWithError(error.clone())` => `stop_reason_closed_with_error(error.clone())` rule=R11
+//@@ subst `self.connection.allocate_session(tx).map_err(Into::into)` => `self.connection.allocate_session(tx).map_err(|e: ConnAllocError| -> (o: AllocSessionError) { alloc_err_into(e) })` rule=R17
+//@@ subst `.map_err(|_v0| ConnectionInnerError::IllegalState)` => `.map_err(|_v0: Result<OutgoingChannel, AllocSessionError>| -> (o: ConnectionInnerError) { ConnectionInnerError::IllegalState })` rule=R5
+//@@ spec
+    ensures
+        control is Close && close_already_sent(old(self).connection.st) ==> extended_without_close(old(self).transport.sent@, final(self).transport.sent@),                                 // [C12.close-at-most-once] a close request from the handle after a close has already been sent (try_close polled again, close after close_with_error) puts no second Close on the wire
+        control is Close && r is Ok ==> ({
+            let s0 = old(self).transport.sent@; let s1 = final(self).transport.sent@;
+            &&& s1.len() > s0.len() && s1.last() == close_frame(control->Close_0)                                    // [C12.close-frame] a locally requested close sends the Close with the caller's error ...
+            &&& extended_without_close(s0, s1.drop_last())                                                           // [C12.flush-before-close] ... after flushing what the sessions had already queued, and as the last frame
+        }),
+        !(control is Close) ==> final(self).transport.sent@ == old(self).transport.sent@ && final(self).connection.st == old(self).connection.st,
+//@@ entry
+        let ghost mut smid: Seq<Frame> = Seq::empty();
+//@@ loop 0 optional
+        invariant
+            self.outgoing_session_frames.closed@,
+            self.connection.st == old(self).connection.st,
+            control is Close,
+            extended_without_close(old(self).transport.sent@, self.transport.sent@),
+        decreases self.outgoing_session_frames.queue@.len(),
+//@@ loopstart 0
+                    let ghost sl = self.transport.sent@;
+//@@ loopend 0
+                    proof { lemma_extc_trans(old(self).transport.sent@, sl, self.transport.sent@); }
+//@@ end
+
+//@@ fn file=fe2o3-amqp/src/connection/engine.rs impl=`~impl<Io,C>ConnectionEngine<Io,C>whereIo:AsyncRead+AsyncWrite+std::fmt::Debug+SendBound+Unpin+'static,C:endpoint::Connection<State=ConnectionState>` name=open_inner
+//@@ qmark
+//@@ subst `OpenError::Io(io::Error::new( io::ErrorKind::UnexpectedEof, "Expecting an Open frame", ))` => `OpenError::Io(eof_io_error())` rule=R9
+//@@ subst `Err(error) => return Err(error.into())` => `Err(error) => return Err(error.err_into())` rule=R16
+//@@ subst `endpoint::IncomingChannel(channel)` => `IncomingChannel(channel)` rule=R11
+//@@ spec
+    requires
+        old(self).transport.sent@.len() == 0,       // nothing but the protocol header (written by the header codec, unit HEADERS) has gone out
+    ensures
+        final(self).transport.sent@.len() <= 1,
+        final(self).transport.sent@.len() == 1 ==> final(self).transport.sent@[0] == (Frame { channel: 0, body: FrameBody::Open(old(self).connection.local_open) }),   // [C12.open-first] the first frame written is the local Open (once): nothing precedes it
+        r is Ok ==> final(self).transport.sent@.len() == 1,
+        r is Ok ==> ({
+            let rc = final(self).transport.recv@;
+            &&& rc.len() == old(self).transport.recv@.len() + 1 && rc.last().body is Open                                                                        // [C12.open-exchange] opening succeeds only if the first frame from the peer is its Open (a Close or anything else fails the open)
+            &&& final(self).transport.enc_max@ == rc.last().body->Open_0.max_frame_size.0 as int                                                                  // [C06.open.peer-max-frame-size] what we send is limited by the PEER's max-frame-size ...
+            &&& final(self).transport.dec_max@ == old(self).connection.local_open.max_frame_size.0 as int                                                         // ... what we accept by OUR OWN advertised one
+            &&& final(self).heartbeat.period_ms == (match rc.last().body->Open_0.idle_time_out { Some(ms) => if ms == 0 { None::<u64> } else { Some(ms as u64) }, None => None::<u64> })   // [C17.heartbeat.from-peer-open]
+        }),
+        r is Ok ==> final(self).heartbeat.period_ms is Some ==> final(self).heartbeat.period_ms->Some_0 > 0,                                                          // [C15.open.zero-idle-timeout] never a zero heartbeat period
 //@@ end
 }
 
